@@ -129,7 +129,15 @@ fn block_unroll_oracle(ctx: &mut Ctx, spec: &NetSpec, x: &Tensor, y: &Tensor) {
     }
     let expect = if outskips && loops >= 2 { combine(&cur, &ys[..loops - 1]) } else { cur };
     let got = flat_any(y);
-    let exact = acc == "overwrite" || (acc != "mean" && loops <= 2);
+    // every value a small integer multiple of one power of two: all sums are exact in single precision and a mean is one
+    // correctly rounded division, whatever the association
+    let grid = {
+        let vals: Vec<f32> = ys.iter().chain(std::iter::once(&x0)).flat_map(|v| v.iter().cloned()).collect();
+        let m = vals.iter().filter(|v| **v != 0.0 && v.is_finite()).fold(f32::INFINITY, |m, v| m.min(v.abs()));
+        m.is_finite() && vals.iter().all(|v| v.is_finite() && { let q = (*v as f64) / (m as f64); q == q.round() && q.abs() <= 2048.0 })
+            && (m as f64).log2() == (m as f64).log2().round()
+    };
+    let exact = acc == "overwrite" || (acc != "mean" && loops <= 2) || (grid && acc != "mul");
     let scale = ys.iter().chain(std::iter::once(&x0)).flat_map(|v| v.iter()).filter(|v| v.is_finite()).fold(1e-3f64, |m, v| m.max(v.abs() as f64));
     let same = got.len() == expect.len() && got.iter().zip(expect.iter()).all(|(a, b)| {
         if a.is_nan() || b.is_nan() { return a.is_nan() && b.is_nan(); }
@@ -667,11 +675,11 @@ pub fn net_oracles_learn(ctx: &mut Ctx, spec: &NetSpec, net: &Network, job: &Lea
             }
         }
     }
-    if is(ctx, &["C09", "C10", "C04", "C13", "C01", "C02"]) {
+    if is(ctx, &["C09", "C10", "C04", "C13", "C01", "C02", "C11"]) {
         // after training returns every dropout flag is off (gradients and predictions asked for afterwards are those of
         // the layers' defining operators only then)
         let flags = net::flags_of(net);
-        if is(ctx, &["C09", "C01", "C02"]) {
+        if is(ctx, &["C09", "C01", "C02", "C11"]) {
             ctx.oracle(flags.iter().all(|f| !*f), "flags-after-learn", "after training returns the network must predict like one without dropout (all flags off)",
                 desc.clone(), format!("{:?}", flags), "all false".into());
         }
@@ -946,31 +954,92 @@ pub fn direct_c05(ctx: &mut Ctx) {
             jobs.push((spec, xs, ts));
         }
     }
+    // per-sample losses so large that their single-precision sum over a batch overflows (inputs 0: the prediction is 0 and
+    // the weights never move): the reported loss is the same infinity for every pool
+    let first_pair;
+    {
+        let mut g = Gen::new(ctx);
+        let lin = InnerSpec::Dense { out: 1, act: "linear".into(), bias: false, dropout: None, w: Tensor::double(vec![vec![0.5]]), b: None };
+        let spec = NetSpec { input: Shape::Single(1), builds: vec![Build::Layer(lin)], skipacc: "add".into(), loopacc: "mean".into(),
+            opt: Some(crate::ops::scalar::OptSpec::Sgd(1e-30, None)), obj: "mse".into(), clamp: None };
+        // … one batch of three (any two of the losses have a finite sum, all three do not), and batches of five
+        for (n, tv) in [(3usize, vec![1.0e19f32, 1.0954451e19, 1.2247449e19]), (23, vec![8.9e18, 9.0e18, 8.8e18, -8.95e18, 9.05e18])] {
+            let xs: Vec<Tensor> = (0..n).map(|_| Tensor::single(vec![0.0])).collect();
+            let ts: Vec<Tensor> = (0..n).map(|i| Tensor::single(vec![tv[i % tv.len()]])).collect();
+            jobs.push((spec.clone(), xs, ts));
+        }
+        // towers of equal "same" convolutions with rectangular kernels and per-axis padding (1x3 with padding (0,1), 3x1 with
+        // (1,0)): consecutive backward calls of one worker have identical extents
+        for (k, p) in [((1usize, 3usize), (0usize, 1usize)), ((3, 1), (1, 0))] {
+            let conv = |g: &mut Gen| InnerSpec::Conv { filters: 2, act: "tanh".into(), k, s: (1, 1), p, d: (1, 1), dropout: None,
+                ks: (0..2).map(|_| g.tensor_of(&Shape::Triple(2, k.0, k.1), false)).collect() };
+            let dcfg = ArchCfg { dropout: false, wscale: 0.4, ..ArchCfg::small() };
+            let builds = vec![Build::Layer(conv(&mut g)), Build::Layer(conv(&mut g)), Build::Layer(crate::gen::arch::dense_spec(&mut g, &dcfg, 40, 3, "linear", true))];
+            let spec = NetSpec { input: Shape::Triple(2, 4, 5), builds, skipacc: "add".into(), loopacc: "mean".into(),
+                opt: Some(crate::ops::scalar::OptSpec::Sgd(0.05, None)), obj: "mse".into(), clamp: None };
+            let n = 24;
+            let xs: Vec<Tensor> = (0..n).map(|_| input_for(&mut g, &spec.input)).collect();
+            let ts: Vec<Tensor> = (0..n).map(|_| target_for(&mut g, &Sh::Flat(3), "mse")).collect();
+            jobs.push((spec, xs, ts));
+        }
+        // two feedback blocks of the same sizes and different wiring (input skips / output skips), trained one after the
+        // other in ONE pool: nothing a worker thread keeps from the first may show in the second
+        use crate::gen::arch::dense_spec;
+        let dcfg = ArchCfg { dropout: false, wscale: 0.6, ..ArchCfg::small() };
+        let inner = dense_spec(&mut g, &dcfg, 3, 3, "tanh", true);
+        let head = dense_spec(&mut g, &dcfg, 3, 2, "linear", true);
+        let mk = |i: bool, o: bool| NetSpec { input: Shape::Single(3), builds: vec![Build::Feedback { inner: vec![inner.clone()], loops: 2, inskips: i, outskips: o, acc: "add".into() },
+            Build::Layer(head.clone())], skipacc: "add".into(), loopacc: "mean".into(), opt: Some(crate::ops::scalar::OptSpec::Sgd(0.05, None)), obj: "mse".into(), clamp: None };
+        let n = 24;
+        let xs: Vec<Tensor> = (0..n).map(|_| input_for(&mut g, &Shape::Single(3))).collect();
+        let ts: Vec<Tensor> = (0..n).map(|_| target_for(&mut g, &Sh::Flat(2), "mse")).collect();
+        first_pair = jobs.len();
+        jobs.push((mk(true, false), xs.clone(), ts.clone()));
+        jobs.push((mk(false, true), xs, ts));
+    }
     let mut evals = 0u64;
+    let one = |spec: &NetSpec, xs: &Vec<Tensor>, ts: &Vec<Tensor>| -> Result<Vec<u32>, String> {
+        net::try_run(|| {
+            let mut n = net::build(spec).unwrap();
+            let job = LearnJob { xs: xs[..xs.len().min(24)].to_vec(), ts: ts[..ts.len().min(24)].to_vec(),
+                val: Some((xs.clone(), ts.clone(), 5)), batch: 5, epochs: 2, script: vec![], print: None, phases: 1 };
+            let (tl, vl, va) = net::run_learn(&mut n, &job).unwrap();
+            let xr: Vec<&Tensor> = xs.iter().collect();
+            let tr: Vec<&Tensor> = ts.iter().collect();
+            let (l, a) = n.validate(&xr, &tr, 0.1);
+            let preds = n.predict_batch(&xr);
+            let mut bits: Vec<u32> = Vec::new();
+            for v in tl.iter().chain(vl.iter()).chain(va.iter()) { bits.push(v.to_bits()); }
+            for p in net_params(&n) { for v in p { bits.push(v.to_bits()); } }
+            bits.push(l.to_bits());
+            bits.push(a.to_bits());
+            for p in preds { for v in flat_any(&p) { bits.push(v.to_bits()); } }
+            bits
+        })
+    };
+    // the pair: A then B in one pool, B compared with B alone in a fresh single-thread pool
+    {
+        let (sa, xa, ta) = &jobs[first_pair];
+        let (sb, xb, tb) = &jobs[first_pair + 1];
+        let fresh = rayon::ThreadPoolBuilder::new().num_threads(1).build().ok().map(|p| p.install(|| one(sb, xb, tb)));
+        for &t in &pools {
+            if let Ok(pool) = rayon::ThreadPoolBuilder::new().num_threads(t).build() {
+                let r = pool.install(|| { let _ = one(sa, xa, ta); one(sb, xb, tb) });
+                evals += 1;
+                let same = match (&fresh, &r) { (Some(Ok(a)), Ok(b)) => a == b, (Some(Err(a)), Err(b)) => a == b, _ => false };
+                ctx.oracle(same, "schedule-dependent-result",
+                    "training must give bit-identical results whatever the worker threads did before (another network trained in the same pool)",
+                    format!("{} trained after {} in one pool of {} threads", clip(&sb.token(), 300), clip(&sa.token(), 300), t),
+                    "bit patterns differ from the run in a fresh pool".into(), "bit-identical".into());
+            }
+        }
+    }
     for (spec, xs, ts) in jobs.iter() {
         // (train losses, val losses, val acc, final weights, validate, predictions) as bit patterns
         let run = |threads: usize, jitter: u64| -> Result<Vec<u32>, String> {
             let pool = rayon::ThreadPoolBuilder::new().num_threads(threads).build().map_err(|e| e.to_string())?;
             neurons::verif::set_jitter(jitter);
-            let r = pool.install(|| {
-                net::try_run(|| {
-                    let mut n = net::build(spec).unwrap();
-                    let job = LearnJob { xs: xs[..xs.len().min(24)].to_vec(), ts: ts[..ts.len().min(24)].to_vec(),
-                        val: Some((xs.clone(), ts.clone(), 5)), batch: 5, epochs: 2, script: vec![], print: None, phases: 1 };
-                    let (tl, vl, va) = net::run_learn(&mut n, &job).unwrap();
-                    let xr: Vec<&Tensor> = xs.iter().collect();
-                    let tr: Vec<&Tensor> = ts.iter().collect();
-                    let (l, a) = n.validate(&xr, &tr, 0.1);
-                    let preds = n.predict_batch(&xr);
-                    let mut bits: Vec<u32> = Vec::new();
-                    for v in tl.iter().chain(vl.iter()).chain(va.iter()) { bits.push(v.to_bits()); }
-                    for p in net_params(&n) { for v in p { bits.push(v.to_bits()); } }
-                    bits.push(l.to_bits());
-                    bits.push(a.to_bits());
-                    for p in preds { for v in flat_any(&p) { bits.push(v.to_bits()); } }
-                    bits
-                })
-            });
+            let r = pool.install(|| one(spec, xs, ts));
             neurons::verif::set_jitter(0);
             r
         };
